@@ -5,8 +5,8 @@ namespace Morfuse.Archive
 /-- a graph with a forward reference (1 before its object), a backward one, a self reference inside the
     body of object 2, a null pointer and a position-only object -/
 def sample : List Item :=
-  [.prim .u8 255, .str [104, 105], .str [], .ptr true 1, .object 1 [76] [.prim .u8 0], .ptr false 1,
-   .object 2 [86] [.ptr false 2, .ptr true 3], .ptr false 0, .position 3, .raw [0, 1, 2]]
+  [.prim .u8 255, .str [104, 105], .str [], .ptr true 1, .object .poly 1 [76] [.prim .u8 0], .ptr false 1,
+   .object .into 2 [86] [.ptr false 2, .ptr true 3], .ptr false 0, .position 3, .raw [0, 1, 2]]
 
 def sampleInfo : Info := { header := [77, 70, 85, 83], name := [97], version := 1 }
 
